@@ -37,9 +37,16 @@ def nest(spec: dict, rng) -> dict:
     inner["name"] = "inner"
     outer_nodes = [{"k": "sub", "name": "inner", "prog": inner}]
     outs = [e for ns in inner["nodes"] for e in ref.data_output_names(ns)]
+    ren = {}
+    if outs and rng.random() < 0.5:
+        # the nested node's outputs under other names: what a non-selected branch would have produced must stay absent
+        # one level up under the new name too (nobody outside may start on it)
+        picked = sorted(set(rng.sample(outs, rng.randint(1, min(3, len(outs))))))
+        ren = {o: f"{o}_x" for o in picked}
+        outer_nodes[0]["rename_out"] = [ren]
     if outs:
-        o = rng.choice(outs)
-        outer_nodes.append({"k": "fn", "name": "post", "params": [{"n": o}], "outs": ["post_out"]})
+        o = rng.choice(sorted(ren) if ren and rng.random() < 0.7 else outs)
+        outer_nodes.append({"k": "fn", "name": "post", "params": [{"n": ren.get(o, o)}], "outs": ["post_out"]})
     return {"name": "outer", "nodes": outer_nodes, "bind": {}, "inputs": spec["inputs"], "selectors": spec["selectors"], "deterministic": spec["deterministic"]}
 
 
